@@ -360,6 +360,10 @@ func (ix *idxEngine) fieldLenAtExit(p *prover, f *types.Var, base ssa.Value, ret
 			return p.lenOf(st.Val), true
 		}
 	}
+	// a counted loop that appends one element per iteration
+	if l, ok := ix.countedAppendLoop(p, f, base, ret, mine); ok {
+		return l, true
+	}
 	// all stores inside one loop whose header loads the field; ret lies beyond the loop's exit
 	var H *ssa.BasicBlock
 	for _, st := range mine {
@@ -427,4 +431,148 @@ func (ix *idxEngine) fieldIntAtExit(p *prover, inv structInv, base ssa.Value, re
 		return linConst(0), true
 	}
 	return lin{}, false
+}
+
+// countedAppendLoop: the only store of slice field f sits in a loop that runs a counted number of times
+//   for c := M; c > 0; c-- { x.f = append(x.f, e) }      or      for i := 0; i < K; i++ { .. }
+// and executes exactly once per iteration, appending exactly one element to the field's current value. Then after
+// the loop  len(x.f) = len(x.f before the loop) + (number of iterations), the count being M (resp. K) when that is
+// proved >= 0 at the loop's entry.
+func (ix *idxEngine) countedAppendLoop(p *prover, f *types.Var, base ssa.Value, ret ssa.Instruction, stores []*ssa.Store) (lin, bool) {
+	if len(stores) != 1 {
+		return lin{}, false
+	}
+	st := stores[0]
+	H := innermostLoopHeader(st.Block())
+	if H == nil || !H.Dominates(ret.Block()) || blockReach(ret.Block(), nil)[H] {
+		return lin{}, false
+	}
+	inLoop := func(b *ssa.BasicBlock) bool { return H.Dominates(b) && blockReach(b, nil)[H] }
+	// the store runs on every iteration
+	for _, pred := range H.Preds {
+		if H.Dominates(pred) && !st.Block().Dominates(pred) {
+			return lin{}, false
+		}
+	}
+	// value stored: append(<current value of the field>, one element)
+	src, elems, ok := appendedElems(st.Val)
+	if !ok || len(elems) != 1 {
+		return lin{}, false
+	}
+	sf, sb := loadedField(src)
+	if sf != f || p.canon(sb) != p.canon(base) {
+		return lin{}, false
+	}
+	srcLoad, _ := src.(ssa.Instruction)
+	if srcLoad == nil || !inLoop(srcLoad.Block()) {
+		return lin{}, false
+	}
+	// nothing else in the loop writes the field, and nothing writes it between the load and the store
+	for _, b := range p.fn.Blocks {
+		if !inLoop(b) {
+			continue
+		}
+		for _, in := range b.Instrs {
+			if in == ssa.Instruction(st) {
+				continue
+			}
+			if p.mayWrite(in, memLoc{kind: "field", field: f}, f.Type(), nil) {
+				return lin{}, false
+			}
+		}
+	}
+	// nothing writes it after the loop on the way to ret
+	for _, b := range p.fn.Blocks {
+		if !H.Dominates(b) || inLoop(b) || !blockReach(b, nil)[ret.Block()] {
+			continue
+		}
+		for _, in := range b.Instrs {
+			if p.mayWrite(in, memLoc{kind: "field", field: f}, f.Type(), nil) {
+				return lin{}, false
+			}
+		}
+	}
+	// the counter
+	iff, ok := H.Instrs[len(H.Instrs)-1].(*ssa.If)
+	if !ok {
+		return lin{}, false
+	}
+	cond, ok := iff.Cond.(*ssa.BinOp)
+	if !ok {
+		return lin{}, false
+	}
+	var phi *ssa.Phi
+	for _, side := range []ssa.Value{cond.X, cond.Y} {
+		if q, isPhi := side.(*ssa.Phi); isPhi && q.Block() == H {
+			phi = q
+		}
+	}
+	if phi == nil {
+		return lin{}, false
+	}
+	var init ssa.Value
+	step := int64(0)
+	var entryPred *ssa.BasicBlock
+	for k, pred := range H.Preds {
+		if H.Dominates(pred) {
+			e := p.linOf(phi.Edges[k]).sub(linTerm(p.canon(phi)))
+			if !e.isConst() || (e.k != 1 && e.k != -1) || (step != 0 && step != e.k) {
+				return lin{}, false
+			}
+			step = e.k
+		} else {
+			if init != nil {
+				return lin{}, false
+			}
+			init = phi.Edges[k]
+			entryPred = pred
+		}
+	}
+	if init == nil || step == 0 {
+		return lin{}, false
+	}
+	// iterations: the loop continues while cs holds (a single linear constraint in phi)
+	cs := p.condConstraints(iff.Cond, true)
+	if len(cs) != 1 {
+		return lin{}, false
+	}
+	pt := p.canon(phi)
+	coef := cs[0].e.coef[pt]
+	// continue-condition:  coef*phi + rest <= 0
+	rest := cs[0].e.sub(linTerm(pt).scale(coef))
+	var count lin
+	switch {
+	case step == -1 && coef == -1:
+		// -phi + rest <= 0  <=>  phi >= rest ; iterations = init - rest + 1
+		count = p.linOf(init).sub(rest).add(linConst(1))
+	case step == 1 && coef == 1:
+		// phi + rest <= 0  <=>  phi <= -rest ; iterations = -rest - init + 1
+		count = rest.scale(-1).sub(p.linOf(init)).add(linConst(1))
+	default:
+		return lin{}, false
+	}
+	// the bound must not change inside the loop
+	ti := p.termIndex()
+	for tm := range rest.coef {
+		var srcV ssa.Value
+		if x, ok := ti.ints[tm]; ok {
+			srcV = x
+		} else if x, ok := ti.lens[tm]; ok {
+			srcV = x
+		} else {
+			return lin{}, false
+		}
+		if in, isIn := srcV.(ssa.Instruction); isIn && inLoop(in.Block()) {
+			return lin{}, false
+		}
+	}
+	last := entryPred.Instrs[len(entryPred.Instrs)-1]
+	if ok, _ := p.prove(leq(linConst(0), count, "the loop runs a non-negative number of times"), last, nil, 0); !ok {
+		return lin{}, false
+	}
+	el, ok := ix.fieldLenAt(p, f, base, last)
+	if !ok {
+		return lin{}, false
+	}
+	return el.add(count), true
 }
